@@ -130,8 +130,6 @@ def run_persist(c, P):
         k = 0 if reached else k + 1
         bo = got[j]
         d = bo.delay
-        if d is not waits[i] and not _same_real(c, d, waits[i]):
-            c.fail('C16: BackOff.delay differs from the delay passed to exit_event.wait')
         rw = _r(mx) - _r(mn)
         win = z3.If(rw <= 2 ** k, rw, z3.RealVal(2 ** k))
         limit = _r(mn) + win
@@ -143,6 +141,9 @@ def run_persist(c, P):
         c.prove(_r(d) == _r(mn) + _r(draws[i]) * win,
                 'C16: BackOff delay is not min_wait + u * min(max_wait - min_wait, 2^%d) (k=%d consecutive attempts without Ready; '
                 'window too small or not reset)' % (k, k), sig='C16: back-off window differs from min(max_wait-min_wait, 2^k)')
+        # (the reported delay is the time actually waited)
+        if d is not waits[i] and not _same_real(c, d, waits[i]):
+            c.fail('C16: BackOff.delay differs from the delay passed to exit_event.wait')
         pos = j + 1
     if pos != len(got):
         c.fail('C16: events after the last BackOff')
